@@ -184,7 +184,7 @@ type c08Unit struct {
 func runC08(r *h.Run) {
 	thorough := r.Tier == "thorough"
 	sp := newSpaceCtx(r.Seed)
-	r.Rule = "(i) every key SEQUENCE (ordered, repetitions allowed) of length <= 4 (quick) / 5 (thorough) over U(Sigma4,2) x 4 prefix modes x {values, nil}; (ii) valid lists of 8..200 keys with one injected order violation (duplicate, swapped neighbours, key followed by its own prefix, 0x7f/0x80 signed-order inversion) at EVERY index, and two violations at every pair of indexes (n <= 40); (iii) lists whose single-branch run is r bytes long for every r of the tier's range, ending on a high- and a low-nibble difference, at the root, under an inner node, with a tail key, and ending at a 12-way fan-out (257-bit node) at the root and under a 257-bit root; oracle: strictly ascending <=> accepted, rejected => ErrKeyOutOfOrder and nil trie, accepted => every own key is found with its value; beyond the documented 16 KiB either outcome is allowed but never silent loss. Distinct by construction; non-trivial = at least 2 keys"
+	r.Rule = "(i) every key SEQUENCE (ordered, repetitions allowed) of length <= 4 (quick) / 5 (thorough) over U(Sigma4,2) x 4 prefix modes x {values, nil}; (ii) valid lists of 8..200 keys with one injected order violation (duplicate, swapped neighbours, key followed by its own prefix, 0x7f/0x80 signed-order inversion) at EVERY index, and two violations at every pair of indexes (n <= 40); (ii-b) every list of the shared scaffold set (257-bit nodes, big-node pairs / nibble / alias shapes, short tables, shifts, sweep) over K(U21,2); (iii) lists whose single-branch run is r bytes long for every r of the tier's range, ending on a high- and a low-nibble difference, at the root, under an inner node, with a tail key, and ending at a 12-way fan-out (257-bit node) at the root and under a 257-bit root; oracle: strictly ascending <=> accepted, rejected => ErrKeyOutOfOrder and nil trie, accepted => every own key is found with its value; beyond the documented 16 KiB either outcome is allowed but never silent loss. Distinct by construction; non-trivial = at least 2 keys"
 	r.Assumptions = []string{"documented key length limit = 16 KiB (README)", "a refusal (error or panic) of an over-limit input is tolerated, a lost key is not"}
 	r.Bounds["alphabet"] = fmt.Sprintf("%x", sp.sigma)
 	maxLen := 4
@@ -304,6 +304,42 @@ func runC08(r *h.Run) {
 			}
 		}
 		w.Sample(map[string]interface{}{"kind": "injected", "desc": u.desc, "ascending": stricAsc(u.keys)})
+	})
+
+	// (ii-b) the structurally special valid lists of the shared scaffold set
+	// (257-bit nodes, short tables, aliasing and shift shapes): accepted, and
+	// every own key found
+	scs := scaffoldSet(sp, thorough, map[bool][]int{false: {2, 3}, true: {2, 3, 4, 5, 6}}[thorough], nil)
+	r.Phase("scaffold-lists", func(emit func(u interface{}) bool) {
+		it := h.NewSubsetIter(len(sp.u2), 0, 2)
+		for idx := it.Next(); idx != nil; idx = it.Next() {
+			for _, sc := range scs {
+				s := sc.Apply(h.Pick(sp.u2, idx))
+				if !emit(c08Unit{kind: "inj", keys: s.Keys, desc: "scaffold " + s.Name}) {
+					return
+				}
+			}
+		}
+		for k := 0; k <= 70; k++ {
+			s := h.ScaffoldFixed(fmt.Sprintf("sweep%d", k), h.SweepFiller(k), "\xff").Apply([]string{"", "\x0f", "\xf0\xff"})
+			if !emit(c08Unit{kind: "inj", keys: s.Keys, desc: "scaffold " + s.Name}) {
+				return
+			}
+		}
+	}, func(w *h.Worker, x interface{}) {
+		u := x.(c08Unit)
+		w.Begin(func() string { return "C08 " + u.desc })
+		for _, o := range c08Modes {
+			for _, wv := range []bool{true, false} {
+				w.Evals++
+				w.StatesN++
+				w.NontrivN++
+				if v := evalC08(w, u.keys, o, wv, false); v != nil {
+					reportC08(w, v, u, o, wv)
+					return
+				}
+			}
+		}
 	})
 
 	// (iii) run lengths
@@ -546,7 +582,7 @@ type c12Unit struct {
 func runC12(r *h.Run) {
 	thorough := r.Tier == "thorough"
 	sp := newSpaceCtx(r.Seed)
-	r.Rule = "record sets = all subsets of U(Sigma4,2) up to the tier's size plus regular large sets; Get with strictly increasing offsets in 4 gap patterns (1, 7, 4096, near 2^62); RangeGet with block offsets for every block size 1..min(64,n) (records grouped in input order); every query of Q plus per-key mutations; the reader verifies the key among the records stored at the offset; oracle: (record, true) for indexed keys, (\"\", false) for every other string. A state is a distinct (key set, offsets); non-trivial = at least 2 records"
+	r.Rule = "record sets = all subsets of U(Sigma4,2) up to the tier's size, the shared scaffold set (257-bit nodes, big-node pair / nibble / alias shapes, short tables, shifts) over K(U21,2), plus regular large sets; Get with strictly increasing offsets in 4 gap patterns (1, 7, 4096, near 2^62); RangeGet with block offsets for every block size 1..min(64,n) (records grouped in input order); every query of Q plus per-key mutations; the reader verifies the key among the records stored at the offset; oracle: (record, true) for indexed keys, (\"\", false) for every other string. A state is a distinct (key set, offsets); non-trivial = at least 2 records"
 	r.Assumptions = []string{"the reader is a harness-side map from offset to records; an unknown offset reads as not found"}
 	k := 4
 	if thorough {
@@ -605,6 +641,22 @@ func runC12(r *h.Run) {
 			}
 			if !emit(c12Unit{keys: keys, qs: qs, name: "subset"}) {
 				return
+			}
+		}
+	}, work)
+	// record sets with the structural shapes of the shared scaffold set
+	scs := scaffoldSet(sp, thorough, map[bool][]int{false: {2, 3}, true: {2, 3, 4, 5, 6}}[thorough], nil)
+	r.Phase("scaffold-sets", func(emit func(u interface{}) bool) {
+		it := h.NewSubsetIter(len(sp.u2), 0, 2)
+		for idx := it.Next(); idx != nil; idx = it.Next() {
+			if !thorough && len(idx) == 2 && (idx[0]+idx[1])%4 != 0 {
+				continue // quick: all sets of <= 1 record and every fourth pair under each scaffold
+			}
+			for _, sc := range scs {
+				s := sc.Apply(h.Pick(sp.u2, idx))
+				if !emit(c12Unit{keys: s.Keys, qs: queriesFor(s, sp.q2, false, false), name: "scaffold:" + s.Name}) {
+					return
+				}
 			}
 		}
 	}, work)
